@@ -327,3 +327,113 @@ def _covered(K, evs, i, ev, wo):
         writers = sorted({m for m, _ in outside})
         return False, "slot/row 0 of %s is rewritten per sample elsewhere (%s) but not in this iteration before it is read: it carries the value of the previously evaluated sample" % (ev.field, ", ".join(writers))
     return False, "%s%s is read before it is (fully) written in this iteration: the value left by the previous sample leaks in" % (ev.field, "[%s]" % ", ".join(ev.idx) if ev.idx else "")
+
+
+# ---------------------------------------------------------------------------------------------
+# Loop-nest lifting: every field update inside `for v in range(self.n_x)` nests becomes an
+# index-notation term (field, index tuple, op, rational normal form of the right-hand side),
+# compared modulo renaming of the loop variables and commutative/associative rewriting.
+# ---------------------------------------------------------------------------------------------
+import itertools
+
+from ..norm import rat, NormError, parse as _parse
+
+
+class Update:
+    __slots__ = ("field", "idx", "op", "rhs", "loops", "node", "method", "guards")
+
+    def __repr__(self):
+        return "%s[%s] %s %s   (loops %s)" % (self.field, ", ".join(self.idx), self.op, A.unparse(self.rhs)[:70], [(v, r) for v, r, _ in self.loops])
+
+
+def updates(K, method, _depth=0, _loops=(), _guards=(), _consts=None):
+    """all field / accumulator updates of a method in program order (self.method() calls inlined)"""
+    fn = K.methods[method]
+    out = []
+
+    def walk(stmts, loops, guards, consts):
+        for s in stmts:
+            if isinstance(s, ast.For):
+                var = s.target.id if isinstance(s.target, ast.Name) else A.unparse(s.target)
+                walk(s.body, loops + ((var, canon(s.iter), id(s)),), guards, consts)
+            elif isinstance(s, ast.If):
+                sv = _static_test(s.test, consts or {})
+                if sv is True:
+                    walk(s.body, loops, guards, consts)
+                elif sv is False:
+                    walk(s.orelse, loops, guards, consts)
+                else:
+                    walk(s.body, loops, guards + ((canon(s.test), True),), consts)
+                    walk(s.orelse, loops, guards + ((canon(s.test), False),), consts)
+            elif isinstance(s, (ast.Assign, ast.AugAssign)):
+                tgt = s.targets[0] if isinstance(s, ast.Assign) else s.target
+                op = "=" if isinstance(s, ast.Assign) else {ast.Add: "+=", ast.Sub: "-=", ast.Mult: "*="}.get(type(s.op), "?=")
+                f = K._field_of(tgt, {})
+                name = None
+                if f is not None:
+                    name, idx = f[0], f[1] or ()
+                elif isinstance(tgt, ast.Name):
+                    name, idx = "$" + tgt.id, ()
+                if name is not None:
+                    u = Update()
+                    u.field, u.idx, u.op, u.rhs, u.loops, u.node, u.method, u.guards = name, tuple(idx), op, s.value, loops, s, method, guards
+                    out.append(u)
+                # inlined calls on the right-hand side (info = self.make_AAinv())
+                for c in A.calls_in(s.value):
+                    nm = A.call_name(c) or ""
+                    if nm.startswith("self.") and nm[5:] in K.methods and _depth < 4:
+                        cs = {}
+                        for pn, a in zip(A.param_names(K.methods[nm[5:]])[1:], c.args):
+                            v = A.const_value(a)
+                            if isinstance(v, (int, float)):
+                                cs[pn] = v
+                        out.extend(updates(K, nm[5:], _depth + 1, loops, guards, cs))
+            elif isinstance(s, ast.Expr) and isinstance(s.value, ast.Call):
+                nm = A.call_name(s.value) or ""
+                u = Update()
+                u.field, u.idx, u.op, u.rhs, u.loops, u.node, u.method, u.guards = "$call:" + nm, (), "call", s.value, loops, s, method, guards
+                out.append(u)
+            elif isinstance(s, ast.Return):
+                u = Update()
+                u.field, u.idx, u.op, u.rhs, u.loops, u.node, u.method, u.guards = "$return", (), "return", s.value, loops, s, method, guards
+                out.append(u)
+
+    walk(fn.body, tuple(_loops), tuple(_guards), _consts)
+    return out
+
+
+def match_update(u, spec_field, spec_idx, spec_op, spec_rhs_src, ranges):
+    """Does update u equal the specification `F[idx] op rhs` modulo renaming of loop variables?
+    ranges: {spec var: canonical range string}.  Returns (bool, reason)."""
+    if u.field != spec_field or u.op != spec_op or len(u.idx) != len(spec_idx):
+        return False, "shape"
+    loop_range = {v: r for v, r, _ in u.loops}
+    spec_vars = list(ranges)
+    u_vars = [v for v, r, _ in u.loops]
+    # candidate renamings: each spec var -> a loop var of u with the same range, injective
+    cands = []
+    for sv in spec_vars:
+        cands.append([uv for uv in u_vars if loop_range[uv] == ranges[sv]])
+    for combo in itertools.product(*cands):
+        if len(set(combo)) != len(combo):
+            continue
+        ren = dict(zip(spec_vars, combo))
+        idx = tuple(ren.get(x, x) for x in spec_idx)
+        if idx != u.idx:
+            continue
+        src = spec_rhs_src
+        for sv, uv in ren.items():
+            src = _rename_var(src, sv, "__%s__" % uv)
+        for uv in u_vars:
+            src = src.replace("__%s__" % uv, uv)
+        try:
+            if rat(u.rhs).equals(rat(_parse(src))):
+                return True, ""
+        except (NormError, ZeroDivisionError):
+            pass
+    return False, "rhs"
+
+
+def _rename_var(src, old, new):
+    import re
+    return re.sub(r"(?<![\w.])%s(?![\w])" % re.escape(old), new, src)
